@@ -825,6 +825,8 @@ class _ServerKbdIntAuth(ServerAuth):
     async def _start(self, packet: SSHPacket) -> None:
         """Start server keyboard interactive authentication"""
 
+        self._challenge_sent = False
+
         lang_bytes = packet.get_string()
         submethods_bytes = packet.get_string()
         packet.check_end()
@@ -855,6 +857,7 @@ class _ServerKbdIntAuth(ServerAuth):
             self.send_packet(MSG_USERAUTH_INFO_REQUEST, String(name),
                              String(instruction), String(lang),
                              UInt32(num_prompts), *prompts_bytes)
+            self._challenge_sent = True
         elif challenge:
             await self.send_success()
         else:
@@ -870,6 +873,12 @@ class _ServerKbdIntAuth(ServerAuth):
     def _process_info_response(self, _pkttype: int, _pktid: int,
                                packet: SSHPacket) -> None:
         """Process a keyboard interactive authentication response"""
+
+        if not self._challenge_sent:
+            raise ProtocolError('Unexpected keyboard interactive '
+                                'info response')
+
+        self._challenge_sent = False
 
         num_responses = packet.get_uint32()
         responses = []
